@@ -217,6 +217,12 @@ func (c *codecCtx) frameCase(s codecSample, file []byte, what string) {
 	if len(got) == 1 && got[0] == s.orig {
 		c.res.Hit("frame:record-survives")
 	}
+	if !ok && string(file) == string(s.file) {
+		keepBest(lib.Violation{Sig: "written-record-not-recovered-intact",
+			What:   fmt.Sprintf("the undamaged log of one %s record yields %v after reopening, written was %s", s.name, got, s.orig),
+			Replay: map[string]any{"ops": []Op{}, "codec": s.name, "damage": "none", "file": hex.EncodeToString(file)}})
+		return
+	}
 	if !ok {
 		keepBest(lib.Violation{Sig: "corrupt-record-yields-foreign-entry",
 			What:   fmt.Sprintf("a damaged log (%s, %s) yields %v, written was %s", s.name, what, got, s.orig),
